@@ -15,6 +15,7 @@ from pv.driver import BudgetExceeded, Driver
 
 ID = 'C14'
 TITLE = 'persisters: snapshot store keyed by (pid, tag)'
+ANCHORS = ['plumpy.persistence:InMemoryPersister.save_checkpoint', 'plumpy.persistence:InMemoryPersister.load_checkpoint', 'plumpy.persistence:PicklePersister.save_checkpoint', 'plumpy.persistence:PicklePersister.load_checkpoint', 'plumpy.persistence:PicklePersister.get_checkpoints', 'plumpy.persistence:PicklePersister.delete_checkpoint', 'plumpy.persistence:PicklePersister.delete_process_checkpoints', 'plumpy.persistence:InMemoryPersister.delete_process_checkpoints']
 LEVEL = 'exploration'
 TECHNIQUE = ('runtime monitoring of operation histories against an executable dictionary model: the same history is applied to InMemoryPersister, '
              'PicklePersister and a dict {(pid, tag): snapshot at save time}; every call result / exception and every loaded bundle is compared')
